@@ -22,7 +22,7 @@ RULE = ('state = (stream, timing reference, template, option vector, magnitude c
         'and compared with the S entry or $Number$ that produced its URL')
 ASSUMPTIONS = [
     'a tfdt that needs more than 32 bits must be carried in a version-1 box (one direction only)',
-    'number clause tolerance: duration/2 + (loops+1) x |reference duration - N x @duration| ticks (per-loop drift)',
+    'number clause tolerance: duration/2 + |reference duration - N x @duration| ticks (one loop\'s drift correction) + 1 tick',
     'alignment clause: stored position == presentation time modulo the reference duration, tolerance one tick of '
     'the track timescale plus one tick per completed loop when the reference duration is not integral in it',
     'source segment identified by exact mdat payload match against the stored file',
@@ -109,7 +109,9 @@ def oracle(acc, rec, doc, rep, seg, pos, resp, stream=None, ref_override=None, v
             _, own = st.seg_starts(fname)
             ref_tc = ref_dur * ts
             per_loop = max(abs(ref_tc - nseg * d), abs(ref_tc - own * ts))
-            tol += (loops + 1) * per_loop
+            # the number is turned into a time ((n - startNumber) x duration) and the segment nearest to that time is
+            # served, so the distance never grows with the age of the stream: half a segment plus one loop's correction
+            tol += per_loop + 1
         if abs(tf - nominal) > tol:
             acc.violation(f'C02|number|tfdt-far-from-nominal|{kind}{vtag}',
                           f'{rec["template"]} {rec["opts"]} at {rec["now"]}: {rep.id} $Number$={seg["n"]} nominal '
